@@ -190,7 +190,7 @@ impl Profile {
 						cfg.thresholds.insert(i as u8, *rng.pick(&[0u32, 16, 64, 4096]));
 					}
 				}
-				if *self == Profile::C03 && (v / 12) % 3 == 2 {
+				if (*self == Profile::C03 && (v / 12) % 3 == 2) || (*self == Profile::C01 && (v / 12) % 4 == 3) {
 					// reindex variant: uniform keys through the identity hash
 					cfg.cols[0] = col(false, true, false, false, CompressionType::NoCompression);
 					cfg.salt = Some([0u8; 32]);
